@@ -19,6 +19,9 @@ const (
 	RepoDir    = "/repo"
 	RepoModule = "github.com/bronlabs/bron-crypto"
 	GoBinary   = "go1.26.8"
+	// BuildTags: purego (no BoringSSL in the sandbox) plus verif_e1, which guards the harness
+	// sources so that they are invisible to ordinary builds of the verif/engine module.
+	BuildTags = "purego,verif_e1"
 )
 
 // Loaded is a program with the harness overlaid into its target package.
@@ -176,7 +179,7 @@ func Load(pkgArg, harnessDir string) (*Loaded, error) {
 	cfg := &packages.Config{
 		Mode:       packages.LoadAllSyntax,
 		Dir:        RepoDir,
-		BuildFlags: []string{"-tags=purego"},
+		BuildFlags: []string{"-tags=" + BuildTags},
 		Env:        goEnv(),
 		Overlay:    overlay,
 		Tests:      false,
